@@ -730,7 +730,13 @@ class Interp:
         fv = self.eval(node.func, fr)
         fi0 = self.sb.info_of(fv) if callable(fv) and not isinstance(fv, (BoundSpecial, type)) else None
         if fi0 is not None and fi0.key in DROPPED_CALLS:
-            self.dropped.add(fi0.qualname + '()')       # message printers: no-ops with empty frame, arguments not evaluated
+            self.dropped.add(fi0.qualname + '()')       # message printers: no-ops with empty frame
+            # their arguments ARE evaluated (an exception raised while building the message is an exception of the function);
+            # what the executor cannot model in a message (number formatting ...) is skipped
+            try:
+                self.eval_args(node, fr)
+            except Unsupported:
+                pass
             return None
         args, kwargs = self.eval_args(node, fr)
         return self.call_value(fv, args, kwargs, fr, node)
